@@ -3,6 +3,7 @@
  * source of one endpoint failing at its i-th draw.  Mode B (plan.op > 0):
  * single-node randomised API operations: every draw index fails in turn,
  * stream pairs, and histories of repeated operations on one stream. */
+#define _GNU_SOURCE
 #include "gmsim.h"
 #include <gmssl/sm9.h>
 #include <gmssl/cms.h>
@@ -323,6 +324,60 @@ static int op_sm9_exch(void)
 	return 1;
 }
 
+static int op_sm9_exch_1b(void)
+{
+	SM9_Z256_POINT RA, RB; sm9_z256_t rA; uint8_t buf[65], sk[16];
+	static SM9_ENC_KEY keyB; static int have;
+	if (!have) { sim_ambient_entropy_seed(0x0b5eb); if (sm9_exch_master_key_extract_key(&g_sm9e_msk, "bob", 3, &keyB) != 1) return 0; have = 1; }
+	/* RA from a fixed scalar so that only step 1B draws entropy here */
+	sm9_z256_hash1(rA, "bob", 3, SM9_HID_EXCH);
+	sm9_z256_point_mul(&RA, rA, sm9_z256_generator());
+	if (sm9_exch_step_1B(&g_sm9e_msk, "alice", 5, "bob", 3, &keyB, &RA, &RB, sk, sizeof(sk)) != 1) return 0;
+	sm9_z256_point_to_uncompressed_octets(&RB, buf);
+	eph_add(buf + 1, 32); out_add(buf, 65); out_add(sk, 16);
+	g_oo->valid = 1;
+	return 1;
+}
+static int op_sm9_enc_keygen(void)
+{
+	SM9_ENC_MASTER_KEY m; uint8_t buf[512], *p = buf; size_t len = 0;
+	if (sm9_enc_master_key_generate(&m) != 1) return 0;
+	if (sm9_enc_master_public_key_to_der(&m, &p, &len) != 1) return 0;
+	eph_add(buf + len - 40, 40); out_add(buf, len);
+	g_oo->valid = 1;
+	return 1;
+}
+static int op_pkcs8_pem(void)
+{
+	char *mem = NULL; size_t mlen = 0; SM2_KEY k;
+	FILE *f = open_memstream(&mem, &mlen);
+	if (!f) return 0;
+	int ret = sm2_private_key_info_encrypt_to_pem(&g_k1, "P@ssw0rd", f);
+	fclose(f);
+	if (ret != 1) { free(mem); return 0; }
+	{ uint64_t h1 = hash_bytes(3, mem, mlen), h2 = hash_bytes(4, mem, mlen); uint8_t hh[16]; memcpy(hh, &h1, 8); memcpy(hh + 8, &h2, 8); eph_add(hh, 16); }
+	out_add(mem, mlen);
+	FILE *g = fmemopen(mem, mlen, "r");
+	g_oo->valid = g && sm2_private_key_info_decrypt_from_pem(&k, "P@ssw0rd", g) == 1 && !memcmp(&k, &g_k1, sizeof(k));
+	if (g) fclose(g);
+	free(mem);
+	return 1;
+}
+__attribute__((unused)) static int op_cms_sign_envelop(void)
+{
+	const CredSet *cs = creds_get(1, 0);
+	SM2_KEY k = cs->cli_sign.key;
+	CMS_CERTS_AND_KEY signer = { (uint8_t *)cs->cli_sign.cert, cs->cli_sign.certlen, &k };
+	static const uint8_t key[16] = { 1, 2, 3, 4, 5, 6, 7, 8, 9, 10, 11, 12, 13, 14, 15, 16 }, iv[16] = { 0 };
+	size_t len = 0;
+	if (cms_sign_and_envelop(g_cms, &len, &signer, 1, cs->srv_sign.cert, cs->srv_sign.certlen, OID_sm4_cbc, key, 16, iv, 16,
+		OID_cms_data, g_msg, sizeof(g_msg), NULL, 0, NULL, 0, NULL, 0) != 1) return 0;
+	{ uint64_t h1 = hash_bytes(5, g_cms, len), h2 = hash_bytes(6, g_cms, len); uint8_t hh[16]; memcpy(hh, &h1, 8); memcpy(hh + 8, &h2, 8); eph_add(hh, 16); }
+	out_add(g_cms, len);
+	g_oo->valid = 1;
+	return 1;
+}
+
 typedef struct OpDef { const char *name; int (*fn)(void); int sm9; int slow; } OpDef;
 static const OpDef g_ops[] = {
 	{ "none", NULL, 0, 0 },
@@ -336,6 +391,8 @@ static const OpDef g_ops[] = {
 	{ "tls_pre_master_secret_generate", op_pms, 0, 0 }, { "tls_sign_server_ecdh_params", op_ske_sign, 0, 0 },
 	{ "sm9_sign_master_key_generate", op_sm9_keygen, 1, 1 }, { "sm9_sign", op_sm9_sign, 1, 1 },
 	{ "sm9_encrypt", op_sm9_encrypt, 1, 1 }, { "sm9_exch_step_1A", op_sm9_exch, 1, 1 },
+	{ "sm9_exch_step_1B", op_sm9_exch_1b, 1, 1 }, { "sm9_enc_master_key_generate", op_sm9_enc_keygen, 1, 1 },
+	{ "pkcs8_encrypt_pem", op_pkcs8_pem, 0, 1 },
 };
 #define NOPS ((int)(sizeof(g_ops) / sizeof(g_ops[0])))
 
